@@ -618,7 +618,7 @@ class ASTNode(DataClassSerializeMixin):
             if filter is None or filter(child_info):
                 appender(child_info)
 
-            if prune and prune(child_info):
+            if prune is not None and prune(child_info):
                 continue
 
             children_info = list(child_info.node.get_child_nodes_with_field())
@@ -658,7 +658,7 @@ class ASTNode(DataClassSerializeMixin):
             if filter is None or filter(child):
                 yield child
 
-            if prune and prune(child):
+            if prune is not None and prune(child):
                 continue
 
             # Walk through children
